@@ -18,6 +18,8 @@ pub mod c10;
 pub mod c11;
 pub mod c12;
 pub mod c13;
+pub mod c14;
+pub mod c15;
 
 pub struct Prop {
     pub id: &'static str,
@@ -49,6 +51,8 @@ pub fn lookup(id: &str) -> Option<Prop> {
         "C11" => Prop { id: "C11", run: c11::run, rule: c11::rule, exhaustive: none, assumptions: no_assumptions },
         "C12" => Prop { id: "C12", run: c12::run, rule: c12::rule, exhaustive: |_| Some(true), assumptions: no_assumptions },
         "C13" => Prop { id: "C13", run: c13::run, rule: c13::rule, exhaustive: |_| Some(true), assumptions: no_assumptions },
+        "C14" => Prop { id: "C14", run: c14::run, rule: c14::rule, exhaustive: none, assumptions: no_assumptions },
+        "C15" => Prop { id: "C15", run: c15::run, rule: c15::rule, exhaustive: none, assumptions: no_assumptions },
         _ => return None,
     })
 }
@@ -62,6 +66,9 @@ pub fn replay(_id: &str, case: &Value) -> Option<Result<(), String>> {
         return Some(r);
     }
     if let Some(r) = c11::replay(case) {
+        return Some(r);
+    }
+    if let Some(r) = c15::replay(case) {
         return Some(r);
     }
     if let Some(r) = c12::replay(case) {
